@@ -95,6 +95,15 @@ def run(tier):
         cases += gen(3, 1, 2)
         cases += gen(3, 2, 3, simulate=3000, depth=60)
     cases = list({json.dumps(x, sort_keys=True): x for x in cases}.values())
+    # the same behaviours under every generator configuration (the skew-warning paths: none / default threshold / any skew, warned
+    # recently or not); g = 1 stretches one clock unit to 3 s so that a step back exceeds the default 1 s threshold
+    import random as _r
+    rg = _r.Random(seed())
+    base_cases = cases
+    cases = list(base_cases)
+    for g, frac in ((2, 1.0), (1, 0.4), (3, 0.4)):
+        sub = base_cases if frac >= 1 else rg.sample(base_cases, int(len(base_cases) * frac))
+        cases += [dict(c, g=g) for c in sub]
     outs, sums = parallel_harness("vh-driver", lambda i, o: ["c18", "run", i, o], cases, wd, nproc=12, timeout=3000)
     if sum(s.get("schedules", 0) for s in sums) != len(cases):
         raise ToolError("harness did not run all cases")
@@ -117,7 +126,7 @@ def run(tier):
         beg = begs.get(json.dumps(bad, sort_keys=True), {})
         v.violation("forced interleaving + scripted clock made the real generator hand out a duplicate or "
                     "non-increasing timestamp: %s" % json.dumps(bad)[:300], [beg] + bad)
-    v.add(traces_validated_against_impl=len(traces), forced_cases=len(cases), exhaustive_for=exhaustive_for,
+    v.add(traces_validated_against_impl=len(traces), forced_cases=len(cases), forced_behaviours=len(base_cases), generator_configurations=4, exhaustive_for=exhaustive_for,
           distinct_records=nd, misaligned=mis, values_differ_from_model=differ, trace_validation_states=st)
     if mis:
         drift.append("%d schedules misaligned with the model's step structure" % mis)
